@@ -83,4 +83,51 @@ theorem filter_insertAt_error (k : Nat) (n : Str) (e : Err) (good : List (Str ×
   simp only [insertFileAt, List.filter_append, List.filter, isOkFile]
   rw [← List.filter_append, List.take_append_drop]
 
+/-! ### the process-wide name table -/
+
+theorem namesFrom_true (fs : List (List NameKey × Except Err FileTree)) :
+    namesFrom true fs = (fs.map (·.1)).flatten := by
+  induction fs with
+  | nil => rfl
+  | cons x xs ih =>
+    obtain ⟨r, o⟩ := x
+    cases o <;> simp [namesFrom, ih]
+
+/-- a file whose constructor requested nothing leaves the name table as if it were absent,
+    wherever it is read and whatever became of it -/
+theorem namesFrom_insert_nil (k : Nat) (bad : List NameKey × Except Err FileTree) (hb : bad.1 = [])
+    (good : List (List NameKey × Except Err FileTree)) :
+    namesFrom true (insertFileAt k bad good) = namesFrom true good := by
+  rw [namesFrom_true, namesFrom_true]
+  simp only [insertFileAt, List.map_append, List.map_cons, List.flatten_append, List.flatten_cons, hb,
+             List.nil_append]
+  rw [← List.flatten_append, ← List.map_append, List.take_append_drop]
+
+theorem reservedWith_nil (evs : List (CK × CK × Str)) : reservedWith [] evs = [] := by
+  simp [reservedWith]
+
+/-! ### the reader on a truncated file -/
+
+/-- cutting the file after any physical line gives the reader a prefix of the logical lines -/
+theorem readFrom_prefix (m : Marks) (s : RS) (pre suf : List Str) (all : List Str)
+    (h : readFrom m s (pre ++ suf) = .ok all) :
+    ∃ xs ys, readFrom m s pre = .ok xs ∧ all = xs ++ ys := by
+  induction pre generalizing s all with
+  | nil => exact ⟨[], all, rfl, rfl⟩
+  | cons l ls ih =>
+    simp only [List.cons_append, readFrom] at h ⊢
+    cases hf : feed m s l with
+    | error e => simp [hf] at h
+    | ok r =>
+      obtain ⟨s', items⟩ := r
+      simp only [hf] at h ⊢
+      cases hr : readFrom m s' (ls ++ suf) with
+      | error e => simp [hr] at h
+      | ok more =>
+        simp only [hr] at h
+        obtain ⟨xs, ys, h1, h2⟩ := ih s' more hr
+        refine ⟨items ++ xs, ys, by simp [h1], ?_⟩
+        cases h
+        simp [h2]
+
 end Ford
